@@ -337,9 +337,35 @@ def r08_12(run, model):
         raise AnalysisIncomplete("lambda_lift: loop that transforms the function bodies not found")
 
 
+def r08_13(run, model):
+    run.rule("R08.13", "a closure can be passed where a function type is expected: closure conversion turns a capturing closure into a struct "
+                       "value, while parameters keep their function type - so where transform_expr rebuilds an ordinary call it has to look at "
+                       "the callee's parameter types next to the converted arguments (adapt the argument or specialise the callee)")
+    f = model.fn("transform_expr", LIFT)
+    ms = list(S.find(f.body, "Match"))
+    arm = None
+    for m in ms:
+        for a in m["arms"]:
+            if S.norm_ws(run.facts.text(LIFT, a["pat"]["sp"])).startswith("MonoExpr::ECall"):
+                arm = a
+                break
+        if arm:
+            break
+    if arm is None:
+        raise AnalysisIncomplete("transform_expr: ECall arm not found")
+    body = S.norm_ws(run.facts.text(LIFT, arm["body"]["sp"]))
+    # the callee's parameter types are read: a TFunc pattern binding `params`, or a `.params` access, in the arm
+    reads_params = re.search(r"TFunc\{(ref)?params|TFunc\{[^}]*\bparams\b(?!:_)|\.params\b", body) is not None
+    run.ob("R08.13", "transform_expr|ECall: a closure argument is matched against the parameter's function type", reads_params, site(LIFT, arm["sp"]),
+           "the arm reads the callee's parameter types" if reads_params else "arguments are converted and passed on; the callee's parameter types are never looked at (`Ty::TFunc { ref ret_ty, .. }`)",
+           witness="fn apply_once(f: (int32) -> int32, v: int32) -> int32 { f(v) } … let k = 10; let c = |x: int32| x + k; apply_once(c, 4): "
+                   "Go gets `apply_once(c__4, 4)` with c__4 of struct type closure_env_c_0 for a `func(int32) int32` parameter")
+
+
 def run(run, model):
     run.try_rule(r08_10, model)
     run.try_rule(r08_12, model)
+    run.try_rule(r08_13, model)
     from rules import c19
     run.rule("R08.9", "captured variables get distinct environment fields (shared with C19 R19.6)")
     run.try_rule(c19.r19_6, model)
